@@ -107,7 +107,8 @@ Qed.
 Print Assumptions C17_mint_live_generated.
 
 From Sge Require Import Model.Orderbook Proofs.Custody Proofs.ParamHist.
-(* parameter HISTORIES: the subaccount module's accepted parameter updates (its two endpoint switches) may occur anywhere between user
+(* parameter HISTORIES: accepted parameter updates - the subaccount module's two endpoint switches (GSubParams) and the bet module's wager
+   fee (GBetFee, refused unless 0 <= fee < minimum amount as validateConstraints demands) - may occur anywhere between user
    operations; the subaccount ledger of C11 (ids and owners distinct, no negative amount, every subaccount address holds at least
    deposited - withdrawn - spent - lost) and the custody equations of C01 hold after every such history.  `gstep` is what the correspondence
    runs execute for the history operation SPRM (x/subaccount UpdateParams under the governance authority) *)
